@@ -57,6 +57,7 @@ func (h *H[T]) C10(rc *runCtx) *Violation {
 	}
 	cont := []int{8, 3, 24, 64, 200}[prog.Draw(5)]
 	maxOut := 1 + prog.Draw(rc.b.MaxOut)
+	useMask := drawMask(prog, numUse)
 	marathon := false
 	manyOut := false
 	switch {
@@ -369,7 +370,7 @@ func (h *H[T]) C10(rc *runCtx) *Violation {
 			default:
 				i := prog.Draw(len(out))
 				hb := out[i]
-				u := drawUse(prog)
+				u := drawUse(prog, useMask)
 				var peer *signal.Buffer[T]
 				if len(out) > 1 {
 					peer = out[(i+1)%len(out)].cur
